@@ -8,6 +8,13 @@ use weechess_core::*;
 #[cfg(replay)]
 use crate::kani;
 
+/// `&str` over bytes that the harness has constrained to ASCII. `std::str::from_utf8` would be correct
+/// too, but its word-at-a-time validation loops are what CBMC then spends its time on (500 unwindings
+/// for a 47-byte buffer) instead of the parser under test.
+fn ascii_str(bytes: &[u8]) -> &str {
+    unsafe { std::str::from_utf8_unchecked(bytes) }
+}
+
 fn show(tag: &str, bytes: &[u8]) {
     #[cfg(not(kani))]
     println!("CASE {{\"harness\":\"{}\",\"len\":{},\"bytes\":{:?},\"text\":{:?}}}", tag, bytes.len(), bytes, String::from_utf8_lossy(bytes));
@@ -96,12 +103,10 @@ fn fen_placement<const N: usize>(tag: &str) {
     }
     kani::assume(ok && slashes == 7 && !prev_slash);
     show(tag, &bytes[..len]);
-    let s = std::str::from_utf8(&bytes[..len]);
-    if let Ok(s) = s {
-        let r = weechess_core::notation::verif_board_try_parse(s);
-        kani::cover!(r.is_ok(), "a placement field parses");
-        kani::cover!(r.is_err(), "a placement field is rejected");
-    }
+    let s = ascii_str(&bytes[..len]);
+    let r = weechess_core::notation::verif_board_try_parse(s);
+    kani::cover!(r.is_ok(), "a placement field parses");
+    kani::cover!(r.is_err(), "a placement field is rejected");
 }
 
 proof! {
@@ -116,40 +121,42 @@ proof! {
     }
 }
 
-/// A concrete flood of `P` eights followed by every symbolic tail of at most `T` bytes over the regex
-/// alphabet (seven '/', no empty segment): the empty-square counter stands at 8*P when the symbolic part
-/// begins, so with P = 31 the next digit decides whether the `u8` cursor passes 255. The concrete prefix
-/// costs almost nothing to execute symbolically; the tail is fully symbolic.
+/// A concrete flood of `P` eights followed by every symbolic tail of exactly `T` bytes over the regex
+/// alphabet (seven '/', no empty segment; `N = P + T`): the empty-square counter stands at 8*P when the
+/// symbolic part begins, so with P = 31 the next digit decides whether the `u8` cursor passes 255. The
+/// concrete prefix costs almost nothing to execute symbolically; the tail is fully symbolic and the
+/// total length is concrete (a symbolic length triples the cost).
 fn fen_placement_after_flood<const P: usize, const T: usize, const N: usize>(tag: &str) {
     let tail: [u8; T] = kani::any();
-    let tlen: usize = kani::any();
-    kani::assume(tlen >= 14 && tlen <= T);
     let mut bytes = [b'8'; N];
     let mut slashes = 0u32;
     let mut prev_slash = P == 0; // with an empty prefix the first segment must not be empty
     let mut ok = true;
     let mut i = 0;
     while i < T {
-        if i < tlen {
-            let b = tail[i];
-            let is_slash = b == b'/';
-            let is_piece_or_digit = matches!(b, b'r' | b'n' | b'b' | b'q' | b'k' | b'p' | b'R' | b'N' | b'B' | b'Q' | b'K' | b'P' | b'1'..=b'8');
-            ok = ok && (is_slash || is_piece_or_digit);
-            if is_slash {
-                ok = ok && !prev_slash;
-                slashes += 1;
-            }
-            prev_slash = is_slash;
-            bytes[P + i] = b;
+        let b = tail[i];
+        let is_slash = b == b'/';
+        let is_piece_or_digit = matches!(b, b'r' | b'n' | b'b' | b'q' | b'k' | b'p' | b'R' | b'N' | b'B' | b'Q' | b'K' | b'P' | b'1'..=b'8');
+        ok = ok && (is_slash || is_piece_or_digit);
+        if is_slash {
+            ok = ok && !prev_slash;
+            slashes += 1;
         }
+        prev_slash = is_slash;
+        bytes[P + i] = b;
         i += 1;
     }
     kani::assume(ok && slashes == 7 && !prev_slash);
-    show(tag, &bytes[..P + tlen]);
-    let s = std::str::from_utf8(&bytes[..P + tlen]).unwrap();
+    show(tag, &bytes[..]);
+    let s = ascii_str(&bytes[..]);
     let r = weechess_core::notation::verif_board_try_parse(s);
     kani::cover!(r.is_err(), "an over-long placement is rejected");
-    kani::cover!(tlen == T, "longest tail");
+}
+
+proof! {
+    fn fen_placement_flood31_tail15() {
+        fen_placement_after_flood::<31, 15, 46>("c14 fen_placement_flood31_tail15");
+    }
 }
 
 proof! {
@@ -180,7 +187,7 @@ proof! {
             i += 1;
         }
         show("c14 fen_placement_digit_flood", &bytes[..]);
-        let s = std::str::from_utf8(&bytes[..]).unwrap();
+        let s = ascii_str(&bytes[..]);
         let r = weechess_core::notation::verif_board_try_parse(s);
         kani::cover!(r.is_ok(), "a digit flood is accepted as an (over-long) placement");
     }
